@@ -147,6 +147,9 @@ pub mod c05 {
         if part.starts_with("par") {
             return crate::props::par::replay(part, case, known, "C05");
         }
+        if part.starts_with("stress") {
+            return crate::props::par::stress_replay(case, "C05");
+        }
         match serde_json::from_value::<SolveCase>(case.clone()) {
             Ok(c) => eval_cutoffs(&c, &mut CaseObs::default(), "C05", usize::MAX),
             Err(e) => Verdict::HarnessError(format!("cannot decode replay case: {e}")),
